@@ -10,6 +10,7 @@ import (
 	"flag"
 	"fmt"
 	"os"
+	"strings"
 	"time"
 	"verifharness/c11x"
 	"verifharness/cryptob"
@@ -94,6 +95,7 @@ func main() {
 	}
 	w := bufio.NewWriterSize(of, 1<<20)
 	n, crashes, hangs := 0, 0, 0
+	harnessFault := ""
 	err = isolate.Run(scenarios, []string{name, "-worker"}, nil, *parallel,
 		time.Duration(*timeout)*time.Second, func(r isolate.Result) {
 			b, _ := json.Marshal(r)
@@ -102,6 +104,9 @@ func main() {
 			n++
 			if r.Crash {
 				crashes++
+				if f := faultInHarness(r.Stderr); f != "" && harnessFault == "" {
+					harnessFault = f
+				}
 			}
 			if r.Hang {
 				hangs++
@@ -114,4 +119,41 @@ func main() {
 		os.Exit(2)
 	}
 	fmt.Printf("scenarios=%d crashes=%d hangs=%d\n", n, crashes, hangs)
+	if harnessFault != "" {
+		// a panic raised by the harness's own code (not under a frame of the code under test) is a dead
+		// driver, never a verdict about the code
+		fmt.Fprintf(os.Stderr, "the harness itself panicked: %s\n", harnessFault)
+		os.Exit(3)
+	}
+}
+
+// faultInHarness looks at the stack of the panicking goroutine: if, going down from the panic, a frame of the
+// harness comes before any frame of the code under test, the panic is the harness's own.
+func faultInHarness(stderr string) string {
+	i := strings.Index(stderr, "\ngoroutine ")
+	if i < 0 || !strings.Contains(stderr[:i], "panic:") {
+		return ""
+	}
+	first := ""
+	for _, l := range strings.Split(stderr[:i], "\n") {
+		if strings.HasPrefix(l, "panic:") {
+			first = l
+		}
+	}
+	stack := stderr[i+1:]
+	if j := strings.Index(stack, "\n\n"); j >= 0 {
+		stack = stack[:j]
+	}
+	for _, l := range strings.Split(stack, "\n") {
+		if strings.HasPrefix(l, "\t") || strings.HasPrefix(l, "goroutine ") {
+			continue
+		}
+		if strings.HasPrefix(l, "github.com/jech/storrent/") {
+			return ""
+		}
+		if strings.HasPrefix(l, "verifharness/") {
+			return first + " at " + l
+		}
+	}
+	return ""
 }
